@@ -255,6 +255,8 @@ class World:
                 for u in self.users
             ),
             "fs": self.tree(),
+            "spy": str(self.spy.n),
+            "listeners": str(len(self.net.listeners)),
         }
 
     def driver_init_lines(self, fs_entries=()):
